@@ -324,6 +324,26 @@ func (e *Engine) doCopy(st *State, dst, src SliceV) Val {
 	// supported pattern: dst is a whole fresh allocation and the lengths are equal:
 	// the fresh object's array becomes the source array and the slice window moves to the source offset.
 	same := Eq(dst.Len, src.Len)
+	if (!isZero(dst.Off) || !e.valid(st, same)) && bvWidth(dst.Elem) == 8 && !isFloat(dst.Elem) {
+		// any other byte copy: min(len) bytes of the source arrive at the destination's window (memmove semantics),
+		// writing pre-existing memory is a frame violation; what the destination's array holds outside the copied
+		// range is forgotten (over-approximation)
+		e.warn("copy outside the modelled pattern (whole fresh destination of the source's length): bytes outside the copied range are arbitrary afterwards (over-approximation)")
+		zero := BVu(0, 64)
+		n := Ite(SLe(dst.Len, src.Len), dst.Len, src.Len)
+		if !st.spec {
+			e.oblige(st, "frame:copy", Or(Eq(n, zero), Not(ULt(dst.Base, Add(alloc0, BVu(1, 64))))), "copy writes into a pre-existing slice")
+		}
+		srcArr := src.Arr
+		if srcArr == nil {
+			srcArr = st.arrOf(src.Base)
+		}
+		na := SymSort(fresh("copy_arr"), byteArrSort)
+		st.assumeT(contentEq(na, dst.Off, srcArr, src.Off, n))
+		st.setArr(dst.Base, na)
+		delete(st.text, dst.Base.String())
+		return n
+	}
 	if !e.valid(st, same) {
 		fail("copy with lengths not provably equal")
 	}
@@ -537,21 +557,30 @@ func (e *Engine) libCall(st *State, fr *Frame, name string, args []Val, c *ssa.C
 		return one(st.readLE(sl, BVu(0, 64), n))
 	case "strconv.AppendInt", "strconv.AppendUint":
 		dst := args[0].(SliceV)
-		if !isZero(dst.Len) {
-			fail("Append* onto non-empty dst")
-		}
 		v := asTerm(args[1])
+		var txt SliceV
 		if name == "strconv.AppendInt" {
-			return one(e.sliceOfText(st, []Piece{{K: "decs", T: v}}, false))
+			txt = e.sliceOfText(st, []Piece{{K: "decs", T: v}}, false)
+		} else {
+			txt = e.sliceOfText(st, []Piece{Num(1, v)}, false)
 		}
-		return one(e.sliceOfText(st, []Piece{Num(1, v)}, false))
+		if !isZero(dst.Len) {
+			// appended to something: the built-in append of the rendered digits (same cases, same frame obligation)
+			return e.doAppendBytes(st, fr, dst, txt), true
+		}
+		return one(txt)
 	case "strconv.AppendFloat":
 		f := asTerm(args[1])
 		fm := asTerm(args[2])
 		pr := asTerm(args[3])
 		bs := asTerm(args[4])
-		if !fm.IsConst() || !pr.IsConst() || !bs.IsConst() {
-			fail("AppendFloat with symbolic format")
+		if dst, ok := args[0].(SliceV); !ok || !isZero(dst.Len) || !fm.IsConst() || !pr.IsConst() || !bs.IsConst() {
+			if c != nil && c.StaticCallee() != nil {
+				if outs, ok := e.pureLibFallback(st, fr, c.StaticCallee(), args); ok {
+					return outs, true
+				}
+			}
+			fail("AppendFloat with symbolic format or onto a non-empty slice")
 		}
 		if bs.Uint() == 32 && f.Op == "f32to64" {
 			// a float32 widened exactly: identified by its 32 bits
@@ -670,7 +699,10 @@ func (e *Engine) libCall(st *State, fr *Frame, name string, args []Val, c *ssa.C
 		_, id := e.bufOf(st, args[0])
 		ch := asTerm(args[1])
 		if !ch.IsConst() {
-			fail("WriteByte of symbolic byte")
+			e.warn("WriteByte of a byte that is not a constant: the text written is arbitrary (over-approximation)")
+			freshCtr++
+			e.bufAppend(st, id, Piece{K: "opaque", ID: freshCtr})
+			return one(ErrV{NonNil: tFalse, ID: BVu(0, 64)})
 		}
 		e.bufAppend(st, id, Lit(string([]byte{byte(ch.Uint())})))
 		return one(ErrV{NonNil: tFalse, ID: BVu(0, 64)})
@@ -778,8 +810,13 @@ func (e *Engine) libCall(st *State, fr *Frame, name string, args []Val, c *ssa.C
 // formatPieces parses a literal format string and turns the arguments into pieces.
 func (e *Engine) formatPieces(st *State, format SliceV, argv Val) []Piece {
 	ft, ok := e.textOf(st, format)
+	whole := func(why string) []Piece {
+		e.warn("fmt: %s: the formatted text is arbitrary (over-approximation)", why)
+		freshCtr++
+		return []Piece{{K: "opaque", ID: freshCtr}}
+	}
 	if !ok || len(ft) != 1 || ft[0].K != "lit" {
-		fail("non-literal format string")
+		return whole("format string is not a literal")
 	}
 	f := ft[0].S
 	var argl []Val
@@ -788,10 +825,10 @@ func (e *Engine) formatPieces(st *State, format SliceV, argv Val) []Piece {
 		argl = a.E
 	case SliceV:
 		if !isZero(a.Len) {
-			fail("symbolic varargs")
+			return whole("arguments passed as a slice")
 		}
 	default:
-		fail("varargs %T", argv)
+		return whole("arguments passed as a slice")
 	}
 	var ps []Piece
 	ai := 0
@@ -819,7 +856,9 @@ func (e *Engine) formatPieces(st *State, format SliceV, argv Val) []Piece {
 			}
 			i++
 		}
-		_ = plus
+		if i >= len(f) || strings.IndexByte("-# ", f[i]) >= 0 {
+			return whole("flag not modelled in " + strconv.Quote(f))
+		}
 		w, prec := 0, -1
 		for f[i] >= '0' && f[i] <= '9' {
 			w = w*10 + int(f[i]-'0')
@@ -844,8 +883,10 @@ func (e *Engine) formatPieces(st *State, format SliceV, argv Val) []Piece {
 		case 'd', 'v', 's':
 			switch v := iv.V.(type) {
 			case *Term:
-				if v.W == 0 {
-					fail("bool in format")
+				if v.W == 0 || plus {
+					freshCtr++
+					ps = append(ps, Piece{K: "opaque", ID: freshCtr})
+					break
 				}
 				sg := isSigned(iv.Tag)
 				var t64 *Term
